@@ -17,3 +17,48 @@ package skiplist
 //@   props C16 C03 C08 C14
 //@   ensures [is-bytes-compare] r0 == bcmp(content(a), content(b))
 //@   modifies nothing
+
+// ---------------------------------------------------------------------------------------------------
+// Sorted map view (MapI): slHas(m,k) - key k is in map m; slValOf(m,k) - the value stored for k (a key is inserted at
+// most once, Insert requires it to be absent, so the value of a key never changes); slSize(m) - number of keys.
+// Keys of byte-slice type are identified by their content (val()).
+
+//@ ghost slHas(m Ref, k any) Bool
+//@ ghost slSize(m Ref) Int
+//@ spec func slValOf(m Ref, k any) any
+
+//@ iface MapI.Get
+//@   ensures [found] slHas(this, val(key)) ==> r1 == nil && r0 == slValOf(this, val(key))
+//@   ensures [not-found] !slHas(this, val(key)) ==> r1 == NotFound
+//@   pure
+
+//@ iface MapI.Contains
+//@   ensures r0 <==> slHas(this, val(key))
+//@   pure
+
+//@ iface MapI.Size
+//@   ensures r0 == slSize(this) && r0 >= 0
+//@   pure
+
+//@ iface MapI.Insert
+//@   requires [key-absent] !slHas(this, val(key))
+//@   ensures slHas(this, val(key)) && slValOf(this, val(key)) == value && slSize(this) == old(slSize(this)) + 1
+//@   modifies slHas(this, val(key)), slSize(this)
+
+// Iterators: the i-th call of Next on iterator it returns slIErr(it,i) with (slIKey(it,i), slIVal(it,i)).
+
+//@ ghost slIPos(it Ref) Int
+//@ spec func slIErr(it Ref, i Int) Err
+//@ spec func slIKey(it Ref, i Int) any
+//@ spec func slIVal(it Ref, i Int) any
+
+//@ iface IteratorI.Next
+//@   ensures [step] slIPos(this) == old(slIPos(this)) + 1
+//@   ensures [err] r2 == slIErr(this, old(slIPos(this)))
+//@   ensures [kv] r2 == nil ==> r0 === slIKey(this, old(slIPos(this))) && r1 == slIVal(this, old(slIPos(this)))
+//@   modifies slIPos(this)
+
+//@ iface MapI.Iterator
+//@   ensures r1 == nil && r0 != nil && slIPos(r0) == 0
+//@   fresh r0
+//@   pure
